@@ -696,35 +696,37 @@ theorem digits_no_minus {ds r : List Char} (hd : ∀ c ∈ ds, isDecDigit c = tr
     have : '-' ≠ c := by intro h; subst h; have := hd '-' (by simp); simp [isDecDigit] at this
     simp [tag, stripPrefix, this]
 
-/-- non-negative `IntConstant` -/
-theorem intConstant_nat_rt (d : Nat) {m : Nat} {r : List Char} (hm : (m : Int) ≤ i64Max) (hr : Sep r) :
-    IntConstant.parse (d + 1) (decDigits m ++ r) = .ok (m : Int) r := by
+/-- `unsigned` on decimal digits -/
+theorem unsigned_rt {m : Nat} {r : List Char} (hm : (m : Int) ≤ i64Max) (hr : Sep r) :
+    IntConstant.unsigned (decDigits m ++ r) = .ok (m : Int) r := by
   obtain ⟨h1, h2, h3⟩ := decDigits_spec m
-  have e1 := digits_no_minus (r := r) h2 h1
   have e2 := digits_no_0x h2 h1 hr
   have e3 := digit1_rt h1 h2 hr.noDigit
-  simp [IntConstant.parse, alt, skip, andThen, e1, e2, PR.bind, mapRes, e3, parseI64Dec, h3, hm]
+  simp [IntConstant.unsigned, alt, skip, andThen, e2, PR.bind, mapRes, e3, parseI64Dec, h3, hm]
 
 /-- `int_rt` -/
-theorem intConstant_rt (d : Nat) {n : Int} {r : List Char} (hn : intOk n = true) (hr : Sep r) :
-    IntConstant.parse (d + 2) (intText n ++ r) = .ok n r := by
+theorem intConstant_rt {n : Int} {r : List Char} (hn : intOk n = true) (hr : Sep r) :
+    IntConstant.parse (intText n ++ r) = .ok n r := by
   simp only [intOk, Bool.and_eq_true, decide_eq_true_eq] at hn
   unfold intText
   by_cases hneg : n < 0
   · have hm : ((-n).toNat : Int) ≤ i64Max := by unfold i64Max at *; omega
-    have h1 := intConstant_nat_rt d hm hr
+    have h1 := unsigned_rt hm hr
     have hv : ¬ ((-n).toNat : Int) = i64Min := by unfold i64Min; omega
     have hback : -((-n).toNat : Int) = n := by omega
     have htag : tag ['-'] ('-' :: (decDigits (-n).toNat ++ r)) = .ok ['-'] (decDigits (-n).toNat ++ r) :=
       tag_append ['-'] _
     simp only [hneg, if_true, List.cons_append]
-    rw [IntConstant.parse]
+    unfold IntConstant.parse
     simp only [alt, skip, andThen, htag, PR.bind, pmapChecked, h1, negI64, hv, if_false, hback]
   · have hm : (n.toNat : Int) ≤ i64Max := by omega
-    have := intConstant_nat_rt (d + 1) hm hr
+    have h1 := unsigned_rt hm hr
     have hback : (n.toNat : Int) = n := by omega
+    obtain ⟨d1, d2, _⟩ := decDigits_spec n.toNat
+    have e1 := digits_no_minus (r := r) d2 d1
     simp only [hneg, if_false]
-    rw [this, hback]
+    unfold IntConstant.parse
+    simp only [alt, skip, andThen, e1, PR.bind, h1, hback]
 
 /-- field ids -/
 theorem fieldId_digits {id : Int} (h0 : 0 ≤ id) (h1 : id ≤ i32Max) :
